@@ -166,6 +166,14 @@ def attributable(prop, feats):
     return out
 
 
+LEAN_WITNESSES = {
+    "K2-reluctant-variable": [("K2", "(?:a|ab)+?c")],
+    "K3-memo": [("K3", "^(?:(?:xx|x)(?:ab|c)*){2}$")],
+    "K4-reextension": [("K4", "^(?:a|ab|b){0,2}$")],
+    "K9-force-progress-cut": [("K9", "(?:a+b?|a+b?){3}a"), ("K9'", "(?:a+b?){3}a")],
+}
+
+
 def replay_known(ctx):
     """re-execute the witness of every listed finding of this property; print KNOWN-FINDING lines"""
     for k in known_for(ctx.prop):
@@ -181,6 +189,16 @@ def replay_known(ctx):
             ctx.notes.append(f"listed finding {k['id']} no longer reproduces (implementation answers {impl[0]!r}, listed {w['observed']!r})")
         if impl[0] != model[0]:
             ctx.notes.append(f"model disagrees with implementation on the witness of {k['id']}")
+        # the kernel-checked witness theorems (Props/Findings.lean) speak about explicit program terms: re-check that
+        # these terms are what the model compiles for the witness pattern, and that the crate compiles the same program
+        for name, pat in LEAN_WITNESSES.get(k["id"], []):
+            cs = [Case(pat, "", "witness", name), Case(pat, "", "dump")]
+            impl, model = rxlib.run_full(cs)
+            if model[0] != "WITNESS:same":
+                ctx.notes.append(f"Lean witness term {name} is not the program the model compiles for {pat!r}: {model[0][:200]}")
+            if impl[1] != model[1]:
+                ctx.notes.append(f"the crate and the model compile {pat!r} (witness {name}) to different programs")
+            ctx.hist["lean_witness_terms_checked"] += 1
 
 
 # ------------------------------------------------------------------------------------------------
